@@ -284,8 +284,15 @@ def encodings(r, rows, labels, vartype_name='INTEGER', allow_float=True, all_dty
         lit = '[' + ', '.join(dict_lit(row, o) for row, o in zip(rows, orders)) + ']'
         outs.append(('dicts', lit, {'orders': cls}))
         outs.append(('dicts-iter', f'iter({lit})', {'orders': cls}))
+        # further one-shot iterables of samples, and samples that are Mappings but not dicts
+        one_shot = [('dicts-gen', f'(d_ for d_ in {lit})'), ('dicts-map', f'map(dict, {lit})'),
+                    ('dicts-mappingproxy', f'[__import__("types").MappingProxyType(d_) for d_ in {lit}]'),
+                    ('dicts-mappingproxy-gen', f'(__import__("types").MappingProxyType(d_) for d_ in {lit})')]
+        for nm, ex in (one_shot if all_dtypes else r.sample(one_shot, 2)):
+            outs.append((nm, ex, {'orders': cls}))
     if len(rows) == 1:
         outs.append(('dict', dict_lit(rows[0], perm_of(r, labels)), {}))
+        outs.append(('mapping', f'__import__("collections").ChainMap({dict_lit(rows[0], perm_of(r, labels))})', {}))
         perm = perm_of(r, labels)
         if n:
             outs.append(('1d+labels', f'(np.array([{", ".join(fl(rows[0][l]) for l in perm)}], dtype={dt}), {perm!r})', {}))
